@@ -195,10 +195,12 @@ CommitIndexOf(s, n) ==
       S == {i \in (s.commit + 1)..LastIdx(s.log) : HasIdx(s.log, i) /\ ok(i)} IN
   IF S = {} THEN s.commit ELSE CHOOSE i \in S : \A k \in S : k <= i
 
-\* the leader's continuation after the RPC returns -- no check that the reply belongs to
-\* the current leadership stint (as in the code)
+\* the leader's continuation after the RPC returns.  Since fix 8b6b307 a reply to a request of
+\* an earlier term is dropped; the weakening restores the code's former behaviour (no check
+\* that the reply belongs to the current leadership stint)
 OnAEReply(s, n, p, m, r) ==
   IF p \notin MembersOf(s) \/ s.role # "L" THEN s
+  ELSE IF m.term # s.term /\ "NoStaleAEReplyCheck" \notin W THEN s
   ELSE IF r.term > s.term THEN BecomeFollower(s, r.term)
   ELSE IF ~r.ok THEN [s EXCEPT !.next[p] = r.hint]
   ELSE
@@ -268,8 +270,11 @@ TimerFire(n) ==
   /\ Spend("timer")
   /\ LET s1 == IF s.role = "C" THEN BecomeCandidate(s, n)
                ELSE [s EXCEPT !.role = "P", !.votes = 1, !.asked = {}, !.pre = TRUE]
-         \* single-voter shortcut: leader at once, without term increment or vote
-         s2 == IF SingleServer(s1, n) THEN BecomeLeader([s1 EXCEPT !.pre = FALSE], n) ELSE s1
+         \* only voter: nobody to ask, leader at once -- through becomeCandidate (new term, own
+         \* vote) since fix bc71823; the weakening restores the old shortcut
+         s2 == IF ~SingleServer(s1, n) THEN s1
+               ELSE IF s1.role = "P" /\ "SingleVoterNoTerm" \notin W THEN BecomeLeader(BecomeCandidate(s1, n), n)
+               ELSE BecomeLeader([s1 EXCEPT !.pre = FALSE], n)
          s3 == IF s2.role = "L" /\ SingleServer(s2, n) THEN [s2 EXCEPT !.commit = CommitIndexOf(s2, n)] ELSE s2 IN
      /\ ns' = [ns EXCEPT ![n] = s3]
      /\ Hist1(n, s3)
